@@ -452,11 +452,8 @@ impl Space for Lits {
 }
 
 pub fn spaces(tier: Tier, _seed: u64) -> Vec<Box<dyn Space>> {
-    let mut values = int_values();
-    if !tier.is_thorough() {
-        // quick: every 4th small value, all structured ones
-        values = values.into_iter().filter(|v| *v > 4096 || *v % 4 == 0 || *v < 300).collect();
-    }
+    let values = int_values();
+    let _ = tier;
     vec![
         Box::new(Lits { family: "int", values }),
         Box::new(Lits { family: "float", values: vec![] }),
